@@ -25,12 +25,13 @@ RULE = (
     "  A second execute() follows the three passes: it may start iterations only for leaf occurrences that do not "
     "lie below a materialization whose rows are held in a collection of their own (gathered by the materialization "
     "or by the sort / deduplication right below it), since those rows are cached on the node by the first execute(). "
+    "  Between the passes and the second execute() an iterator over the result is abandoned after 0-5 rows (a consumer that stops early); the full pass that follows must return the same rows and start at most one iteration per lazy occurrence. "
 )
 ASSUMPTIONS = [
     "only iteration starts observable through the leaf payloads are judged (the engine's internal iterables are not hooked)",
     "reference model vmon/model.py for the row content",
 ]
-MIN_OBS = {"second_executes_checked": 500, "lazy_only_programs": 300, "eager_programs": 300, "passes_checked": 2000, "leaf_iteration_starts_observed": 2000}
+MIN_OBS = {"second_executes_checked": 500, "passes_after_abandoned_iterator": 500, "lazy_only_programs": 300, "eager_programs": 300, "passes_checked": 2000, "leaf_iteration_starts_observed": 2000}
 EAGER = ("sort", "dedup", "mat")
 
 
@@ -49,6 +50,7 @@ def gen_case(rng, tier):
     g = gen.Gen(rng, cfg)
     case = gen.case_from(g, g.tree())
     case["lazy_only"] = lazy_only
+    case["abandon_after"] = rng.choice([0, 1, 1, 2, 3, 5])
     return case
 
 
@@ -187,6 +189,31 @@ def run_case(case):
             if n > lazy:
                 kind = "pass_started_more_than_one_iteration_per_occurrence" if not eager else "pass_reiterated_input_of_eager_operation"
                 out["violations"].append({"kind": kind, "detail": f"{label}: pass {i + 1} started {n} iterations of {name} (lazy occurrences {lazy}, below eager {eager}); tree {short(rel, 300)}"})
+    # ---- an iterator abandoned half-way (a consumer that stops early), then a full pass: the
+    # result must be re-iterable with identical rows, and again at most one start per lazy occurrence
+    k = case.get("abandon_after")
+    if k is not None:
+        try:
+            it = iter(rows)
+            for _ in range(k):
+                next(it, None)
+            del it
+            cur = starts()
+            prev = cur
+            full = names_rows(rows)
+        except Exception as exc:  # noqa: BLE001
+            out["violations"].append({"kind": "iteration_raised", "detail": f"{label} after an abandoned iterator: {exc_str(exc)}"})
+            return out
+        cur = starts()
+        d = delta(prev, cur)
+        prev = cur
+        c["passes_after_abandoned_iterator"] = 1
+        if full != passes[0]:
+            out["violations"].append({"kind": "pass_after_abandoned_iterator_differs", "detail": f"{label}: after abandoning an iterator at row {k}: {short(full, 200)} vs {short(passes[0], 200)}"})
+        for name, n in d.items():
+            lazy, eager = occ.get(name, [0, 0])
+            if n > lazy:
+                out["violations"].append({"kind": "pass_started_more_than_one_iteration_per_occurrence", "detail": f"{label}: the pass after an abandoned iterator started {n} iterations of {name} (lazy occurrences {lazy})"})
     # ---- a second execute(): cached materializations must not touch their input again
     occ2 = occurrences_outside_cached_materializations(rel)
     try:
